@@ -284,11 +284,11 @@ D_REAL = ["nebula.Main / Control.Start / Control.Stop and every goroutine they s
 D_STUB = ["UDP socket (udp.TesterConn, nebula's own channel-backed test double, tag e2e_testing)", "tun device (overlay.TestTun, same)", "network between nodes (the driver: drop, duplicate, jitter, long delay, partition/heal, blocked direct paths)", "wall clock (synctest bubble)", "crypto/rand (cryptotest seeded)"]
 
 check("C34",
-    pkg="e2e", engine="D-live", scenarios=["C34.live"], gomaxprocs=4,
+    pkg={"C34.live": "e2e", "C34.gosched": "nebula"}, engine="D-live + B-gosched", scenarios=["C34.live", "C34.gosched"], gomaxprocs=4,
     quick=tier(400, 45, shrink_s=20, recheck=0), thorough=tier(40000, 1500, shrink_s=60, recheck=0),
     technique="deterministic-schedule simulation of live nodes under the race detector: 2-4 real nebula instances (real Main, all goroutines) in one synctest bubble, a seeded driver that owns network, clock and every stimulus and fires bursts of concurrent stimuli (deliveries, tun traffic, reloads, control-API calls, closes, rebinds, stops/restarts); oracles = race detector reports attributed per run, stimulus calls that never return, real-time hang watchdog (lock cycles)",
     rule="one run = 2-4 live nodes (static or lighthouse+relay topology with blocked direct paths, v1/v2, both curves) for 3-13 s (thorough: 5-45 s) of simulated time in rounds of [deliver due packets, one goroutine per destination | 0-5 further concurrent stimuli | wait for quiescence | advance clock 0-1.5 s] under drop/dup/jitter/long-delay/partition faults; distinct = distinct (topology, stimulus-kind set, delivery) abstract hash; non-trivial = application packets were delivered end to end, at least two stimuli hit one node in the same burst and at least 4 stimulus kinds occurred",
-    level_text="Seeded search over stimulus/fault schedules with real goroutines: any race-detector report whose access stacks include nebula code, any stimulus call (reload, close, API, delivery, stop) that has not returned after 30 s of simulated time, and any run that stops making progress in real time (goroutines waiting for mutexes: lock cycle or lost wake-up) is a violation. The schedule of stimuli, faults and clock steps is replayable from the tape; the order in which the Go runtime runs goroutines inside one burst is not controlled, so a replay re-executes the same schedule (up to 3 attempts) rather than the same instruction interleaving. Evidence, not proof.",
+    level_text="Seeded search over stimulus/fault schedules with real goroutines: any race-detector report whose access stacks include nebula code, any stimulus call (reload, close, API, delivery, stop) that has not returned after 30 s of simulated time, and any run that stops making progress in real time (goroutines waiting for mutexes: lock cycle or lost wake-up) is a violation. The schedule of stimuli, faults and clock steps is replayable from the tape; the order in which the Go runtime runs goroutines inside one burst is not controlled, so a replay re-executes the same schedule (up to 3 attempts) rather than the same instruction interleaving. Evidence, not proof. C34.gosched (engine B, package nebula, deterministic): the roles of each node of a fault-free pair (udp reader, tun reader, handshake timer, connection-manager tick, control call) interleaved at every lock acquisition of the HostMap / HandshakeManager / per-handshake / LightHouse / RemoteList / RelayState / conntrack mutexes; all remaining tasks waiting for locks held by parked tasks is a deadlock (lock-order inversion, double acquisition), reported with the exact interleaving and replayed exactly.",
     level_note="Trusted: the Go race detector (happens-before based: it reports an unsynchronised pair whenever both accesses occur in a run, independent of their observed order), synctest quiescence, the driver. Not explored: more than one reader routine per node (the test socket supports one), the Linux batch/offload paths, ssh/stats/dns listeners.",
     real=D_REAL, stub=D_STUB,
     assumptions=["goroutine order inside a burst is chosen by the Go runtime (GOMAXPROCS=4), not by the tape", "routines=1"],
